@@ -389,6 +389,11 @@ class Ctx:
         'kcalls': ('GenK', ['t_calls_fast', 't_calls_full']),
         'kelev': ('GenK', ['t_elevation']),
         'klog': ('GenK', ['t_logscale']),
+        'kcrop': ('GenK', ['t_crop']),
+        'vmatch': ('GenV', ['t_match_all']),
+        'vidx': ('GenV', ['t_get_indices']),
+        'vfit': ('GenV', ['t_weighted_optimize', 't_optimize']),
+        'vaff': ('GenV', ['t_get_transformation']),
     }
 
     def check_generated(self, topics):
@@ -399,15 +404,17 @@ class Ctx:
         import translate
         import translate_q
         import translate_k
+        import translate_v
         gendir = os.path.join(self.rundir, 'gen')
         os.makedirs(gendir, exist_ok=True)
         files = sorted(set(self.TOPICS[t][0] for t in topics))
         relevant = set(f for t in topics for f in self.TOPICS[t][1])
         problems = []
         for gf in files:
-            mod = {'Gen': translate, 'GenQ': translate_q, 'GenK': translate_k}[gf]
-            txt, probs = mod.translate(REPO)
-            problems += [pr for pr in probs if pr.split(':')[0] in relevant]
+            mod = {'Gen': translate, 'GenQ': translate_q, 'GenK': translate_k, 'GenV': translate_v}[gf]
+            # only the functions the requested topics depend on are translated: nothing else can break this property's layer
+            txt, probs = mod.translate(REPO, only=relevant)
+            problems += probs
             with open(os.path.join(gendir, gf + '.v'), 'w') as fh:
                 fh.write(txt)
         for pr in problems:
